@@ -49,6 +49,9 @@ type stepT struct {
 	Off  *int `json:"off,omitempty"`  // absolute byte offset to flip
 	Mask *int `json:"mask,omitempty"` // XOR mask
 	Cut  *int `json:"cut,omitempty"`  // bytes to cut off the end
+	// CutZero: repeat the whole scenario until the datagram of this step ends in 0x00, then cut its trailing zero
+	// bytes (a receiver that parses beyond the datagram into a zeroed buffer cannot tell the difference)
+	CutZero bool `json:"cutzero,omitempty"`
 }
 type clOut struct {
 	St    string `json:"st"`
@@ -179,11 +182,35 @@ func replyHop(h string) string {
 }
 func toServer(h string) bool { return h == "CH" || h == "CA" || h == "CL" || h == "HR" }
 
+var errRetry = fmt.Errorf("retry")
+
 func replay(idx int, b *beh, seed int64) (res result) {
+	need := false
+	for _, st := range b.Hist {
+		need = need || st.CutZero
+	}
+	if !need {
+		return replayOnce(idx, b, seed)
+	}
+	for attempt := 0; attempt < 4000; attempt++ {
+		res = replayOnce(idx, b, seed+int64(attempt))
+		if res.Err != "panic in replayer or code under test: retry" {
+			res.Muts = append(res.Muts, fmt.Sprintf("attempts=%d", attempt+1))
+			return res
+		}
+	}
+	res.Err = "no datagram ending in a zero byte in 4000 handshakes"
+	return res
+}
+
+func replayOnce(idx int, b *beh, seed int64) (res result) {
 	res = result{I: idx, Acc: map[string]int{}, Nhs: map[string]int{}, Nsess: map[string]int{}, Sent: map[string]int{}, Leafs: map[string][]string{}}
 	defer func() {
 		if r := recover(); r != nil {
 			res.Err = fmt.Sprint("panic in replayer or code under test: ", r)
+			if r == "retry" {
+				res.Err = "panic in replayer or code under test: retry"
+			}
 		}
 	}()
 	rng := rand.New(rand.NewSource(seed + int64(idx)*7919))
@@ -327,6 +354,16 @@ func replay(idx int, b *beh, seed int64) (res result) {
 			case "readdr":
 				deliver(st.S, st.Hop, d, axAddr)
 			case "trunc":
+				if st.CutZero {
+					if d[len(d)-1] != 0 {
+						panic("retry")
+					}
+					z := 0
+					for z < len(d)-1 && d[len(d)-1-z] == 0 {
+						z++
+					}
+					st.Cut = &z
+				}
 				cut := 1 + rng.Intn(len(d)-1)
 				if rng.Intn(3) == 0 {
 					cut = 1 + rng.Intn(16)
